@@ -32,6 +32,7 @@ package server
 //@   atcall[C02.message_bytes] (google.golang.org/grpc/encoding.CodecV2).Marshal : arg1 == m
 //@   ensures[C06.message_once C02.message_once] ncalls("(types.RpcReadWriter).Write") <= old(ncalls("(types.RpcReadWriter).Write")) + 1
 //@   ensures[C02.send_ok_means_written] result == nil ==> ncalls("(types.RpcReadWriter).Write") == old(ncalls("(types.RpcReadWriter).Write")) + 1
+//@   ensures[C04.headers_sent_only_if_written C06.headers_sent_only_if_written] ss.protected.headersSent && !atlock(ss.protected.headersSent) ==> ncalls("(types.RpcReadWriter).Write") == old(ncalls("(types.RpcReadWriter).Write")) + 1
 //@   ensures[C06.headers_marked_sent C04.headers_marked_sent] ncalls("(types.RpcReadWriter).Write") == old(ncalls("(types.RpcReadWriter).Write")) + 1 ==> ss.protected.headersSent
 
 //@ func server.(*serverStream).RecvMsg
